@@ -55,7 +55,7 @@ const (
 	verifC18CkWriteLimit = 1 << iota // written request <= BrokerMaxWriteBytes
 	verifC18CkBatchMax               // written batch <= configured max batch bytes
 	verifC18CkRest                   // framing, decodability, exact batch length accounting
-	verifC18CkAll = verifC18CkWriteLimit | verifC18CkBatchMax | verifC18CkRest
+	verifC18CkAll        = verifC18CkWriteLimit | verifC18CkBatchMax | verifC18CkRest
 )
 
 func verifC18Pick(quick, thorough []int16) int16 {
